@@ -194,9 +194,21 @@ def rule_individual(ctx):
   for b in T.bodies(repo):
     fn = b.func.node
     art = b.func.params()[0]
-    uses = [x for x in ast.walk(fn) if isinstance(x, ast.Name) and x.id == art]
-    loops = [x for x in ast.walk(fn) if isinstance(x, ast.For) and isinstance(x.iter, ast.Name) and x.iter.id == art]
-    if not (len(uses) == 1 and len(loops) == 1):
+    # the loop over the artifacts, by the value it iterates (the list itself, its index range, its enumeration); the list may otherwise only be
+    # read at the loop's own index
+    ap = P("param", art)
+    over = (ap, sym.mk("range", sym.mk("len", ap)), sym.mk("enumerate", ap))
+    loops = [i_["node"] for i_ in b.loops() if isinstance(i_["node"], ast.For) and i_.get("visits") and
+             all(isinstance(v_.get("iter"), Poly) and any(v_["iter"] == o_ for o_ in over) for v_ in i_["visits"])]
+    uses = []
+    if len(loops) == 1:
+      own = {id(x) for x in ast.walk(loops[0].iter)}
+      tn = {x.id for x in ast.walk(loops[0].target) if isinstance(x, ast.Name)}
+      for x in ast.walk(loops[0]):
+        if isinstance(x, ast.Subscript) and isinstance(x.value, ast.Name) and x.value.id == art and isinstance(x.slice, ast.Name) and x.slice.id in tn and isinstance(x.ctx, ast.Load):
+          own.add(id(x.value))
+      uses = [x for x in ast.walk(fn) if isinstance(x, ast.Name) and x.id == art and id(x) not in own]
+    if not (len(loops) == 1 and not uses):
       continue   # joint (batch) check: judged by R-C17-BYVALUE and C02/C03
     if not any(i_["node"] is loops[0] for i_ in b.result_loops()):
       continue   # the loop over the artifacts only builds a partition (a spelled-out comprehension); the results are recorded per partition: joint check
